@@ -171,8 +171,8 @@ func (e Ent[K, V]) Live() bool {
 	_, ok := e.m[e.k]
 	return ok
 }
-func (e Ent[K, V]) K() K       { return e.k }
-func (e Ent[K, V]) V() V       { return e.m[e.k] }
+func (e Ent[K, V]) K() K { return e.k }
+func (e Ent[K, V]) V() V { return e.m[e.k] }
 
 // Iter returns the entries of m in the order chosen by the simulation (sorted by key when no
 // simulation is attached or MapSeed is 0). Go leaves map iteration order unspecified, so any
